@@ -22,6 +22,16 @@ func (s *CommitStateDB) AddLog(log *ethtypes.Log) {
 	s.logSize++
 }
 
+// DiscardTxLogs drops the logs emitted so far by the transaction whose hash was set with Prepare (a delivered
+// transaction that is answered with an error code leaves no logs and does not advance the log index). Not for the
+// mempool path: CheckTx does not call Prepare, there the current hash is that of the last delivered transaction.
+func (s *CommitStateDB) DiscardTxLogs() {
+	if logs, ok := s.logs[s.thash]; ok {
+		s.logSize -= uint(len(logs))
+		delete(s.logs, s.thash)
+	}
+}
+
 // GetTxLogs return current tx logs
 func (s *CommitStateDB) GetTxLogs() []*ethtypes.Log {
 	return s.logs[s.thash]
